@@ -13,7 +13,7 @@ from ..values_common import (FAM, INT_KINDS, FLOAT_KINDS, INT_RANGE, INT_WIDTH, 
                              regen_or_report, eval_cases_robust, val_json, case_coq, CHECK_STRICT, CHECK_LENIENT, HEADER, zl,
                              f64_bits, f64_from_bits, f32_round,
                              V_int, V_bool, V_float, V_fbits, V_numlike, V_str, V_bytes, V_none, V_list, V_cinst,
-                             V_struct, V_arr, V_sarr)
+                             V_struct, V_arr, V_sarr, V_carr)
 
 THEOREMS = [
     "C09_table_ok", "C09_int_roundtrip", "C09_extent", "C09_atomic",
@@ -21,7 +21,7 @@ THEOREMS = [
     "C09_readback_sarr_whole", "C09_refuse",
     "C09_narrow_is_flocq", "C09_float_nearest", "C09_float_overflow_refused",
     "C09_flag", "C09_flag_threads_independent",
-    "C09_ex_accept", "C09_ex_refuse", "C09_ex_slice", "C09_ex_nan_neighbour", "C09_ex_float_array", "C09_ex_flag",
+    "C09_ex_accept", "C09_ex_refuse", "C09_ex_slice", "C09_ex_ctypes_array", "C09_ex_nan_neighbour", "C09_ex_float_array", "C09_ex_flag",
 ]
 
 NAN = 0x7FF8000000000000
@@ -102,6 +102,10 @@ def scalar_values(L: Layouts, idx) -> List[tuple]:
         w = CTYPE[k][1]
         vs.append(V_cinst(k, [5] + [0] * (w - 1)))
     vs.append(V_cinst("Char", [0xFF]))
+    vs += [V_cinst("Uint8", [200]), V_cinst("Int8", [200]), V_cinst("Uint16", [0, 128]), V_cinst("Int64", [255] * 8),
+           V_cinst("Uint32", [255] * 4), V_cinst("Float", [0, 0, 128, 127]), V_cinst("Double", [0] * 6 + [240, 127]),
+           V_carr("Int8", 1, [5]), V_carr("Uint8", 4, [1, 2, 200, 3]), V_carr("Char", 2, [97, 0]), V_carr("Char", 5, [97, 98, 0, 0, 0]),
+           V_carr("Float", 1, [0, 0, 128, 63])]
     vs.append(V_struct(idx["VS_A"], [7, 0, 44, 1]))
     return vs
 
@@ -127,6 +131,79 @@ def elem_values(k: str) -> Tuple[List[tuple], List[tuple]]:
     bad = [V_fbits(INF), V_fbits(NINF), V_int(10 ** 400), V_int(F64_OVERFLOW_INT), V_int(-10 ** 400), V_none(),
            V_str("a"), V_cinst("Double", [0] * 6 + [240, 63]), V_list([V_float(1.0)])]
     return good, bad
+
+
+def _pack(kind: str, vals) -> list:
+    import struct as _st
+    if kind in INT_WIDTH:
+        w = INT_WIDTH[kind]
+        return [b for x in vals for b in int(x).to_bytes(w, "little", signed=kind.startswith("Int"))]
+    fmt = "<f" if kind == "Float" else "<d"
+    return [b for x in vals for b in _st.pack(fmt, x)]
+
+
+def carr_values(k: str, Ln: int, rng: random.Random):
+    """(value, key, enabled, tag) for array field kind k of length Ln, values = raw ctypes arrays"""
+    out = []
+    keys = [None, ["s", None, None, None]]
+    if k in INT_KINDS or k == "Byte":
+        lo, hi = INT_RANGE[k]
+        w = INT_WIDTH[k]
+        own = "Uint8" if k == "Byte" else k
+        signed = own.startswith("Int")
+        other = ("Uint" + own[3:]) if signed else ("Int" + own[4:])
+        wider = {1: "Int16", 2: "Int32", 4: "Int64", 8: "Int8"}[w]
+        olo, ohi = INT_RANGE[other]
+        common = [x for x in (0, 1, min(hi, ohi), 5) if lo <= x <= hi and olo <= x <= ohi]
+        inr = lambda n: [common[i % len(common)] for i in range(n)]
+        for key in keys:
+            out.append((V_carr(own, Ln, _pack(own, [rng.randint(lo, hi) for _ in range(Ln)])), key, True, "carr-own"))
+            out.append((V_carr(other, Ln, _pack(other, inr(Ln))), key, True, "carr-other-sign-inrange"))
+            # a value the OTHER signedness can hold and this field cannot, at every position
+            badv = ohi if signed else olo
+            for p in range(Ln):
+                vals = inr(Ln)
+                vals[p] = badv
+                out.append((V_carr(other, Ln, _pack(other, vals)), key, True, "carr-other-sign-bad"))
+            wl, wh = INT_RANGE[wider]
+            small = lambda n: [[0, 1, 5][i % 3] for i in range(n)]
+            out.append((V_carr(wider, Ln, _pack(wider, small(Ln))), key, True, "carr-other-width-inrange"))
+            bw = [x for x in (hi + 1, lo - 1) if wl <= x <= wh]
+            if bw:
+                for p in range(Ln):
+                    vals = small(Ln)
+                    vals[p] = bw[p % len(bw)]
+                    out.append((V_carr(wider, Ln, _pack(wider, vals)), key, True, "carr-other-width-bad"))
+            out.append((V_carr(own, Ln + 1, _pack(own, inr(Ln + 1))), key, True, "carr-wrong-length"))
+            out.append((V_carr("Float", Ln, _pack("Float", [1.0] * Ln)), key, True, "carr-float-elems"))
+            out.append((V_carr("Char", Ln, [97] * Ln), key, True, "carr-char-elems"))
+        if Ln >= 2:
+            vals = inr(2)
+            out.append((V_carr(other, 2, _pack(other, vals)), ["s", 0, 2, None], True, "carr-slice-inrange"))
+            for p in range(2):
+                vals = inr(2)
+                vals[p] = ohi if signed else olo
+                out.append((V_carr(other, 2, _pack(other, vals)), ["s", Ln - 2, Ln, None], True, "carr-slice-bad"))
+        out.append((V_carr(other, Ln, _pack(other, [ohi if signed else olo] * Ln)), None, False, "carr-off"))
+        out.append((V_carr(own, Ln, _pack(own, inr(Ln))), ["i", 0], True, "carr-into-element"))
+    else:
+        own = k
+        for key in keys:
+            out.append((V_carr(own, Ln, _pack(own, [1.5, -0.0, 3.25, 1e10, 2.0][:Ln])), key, True, "carr-own"))
+            out.append((V_carr("Int16", Ln, _pack("Int16", [-3, 7, 300, 0, 1][:Ln])), key, True, "carr-int-elems"))
+            out.append((V_carr("Uint64", Ln, _pack("Uint64", [2 ** 64 - 1] * Ln)), key, True, "carr-int-elems"))
+            if k == "Float":
+                for p in range(Ln):
+                    vals = [1.0] * Ln
+                    vals[p] = 1e39 if p % 2 == 0 else -1e39
+                    out.append((V_carr("Double", Ln, _pack("Double", vals)), key, True, "carr-double-overflow"))
+                nanlead = [float("nan")] + [1e39] * (Ln - 1)
+                out.append((V_carr("Double", Ln, _pack("Double", nanlead)), key, True, "carr-double-overflow"))
+            out.append((V_carr("Double", Ln, _pack("Double", [float("inf")] + [0.0] * (Ln - 1))), key, True, "carr-inf"))
+            out.append((V_carr(own, Ln + 1, _pack(own, [0.0] * (Ln + 1))), key, True, "carr-wrong-length"))
+            out.append((V_carr("Char", Ln, [97] * Ln), key, True, "carr-char-elems"))
+        out.append((V_carr("Double", Ln, _pack("Double", [1e39] * Ln)), None, False, "carr-off"))
+    return out
 
 
 def slice_keys(L: int) -> List[Optional[list]]:
@@ -234,6 +311,11 @@ def gen_ops(L: Layouts, idx: Dict[str, int], rng: random.Random, tier: str) -> L
                                 items3[-1] = bad[0]
                             arr_ops.append((cname, "a", V_list(items3), key, True, "arr-slice-nan-bad"))
                             arr_ops.append((cname, "a", V_list(items3), key, False, "arr-slice-off"))
+            # raw ctypes arrays (ctype * n): own element type, other signedness of the same width, another width,
+            # wrong length, float / char element types; in range, and one out-of-range element at every position
+            if tier == "thorough" or Ln in (1, 2, 4):
+                for v, key, en, tag in carr_values(k, Ln, rng):
+                    arr_ops.append((cname, "a", v, key, en, tag))
             if k == "Byte":
                 for key in (None, ["i", 0], ["s", 0, 1, None], ["s", 0, 2, None]):
                     for v in (V_bytes(b"\x07"), V_bytes(b"\x07\x08"), V_bytes(b""), V_bytes(bytes([9] * Ln)),
@@ -281,6 +363,7 @@ def gen_ops(L: Layouts, idx: Dict[str, int], rng: random.Random, tier: str) -> L
             for en in (True, False):
                 arr_ops.append((cname, "sa", val, None, en, "sarr-from-array"))
     quick_keep = {"arr-valid", "sarr-valid", "struct", "sarr-one-bad", "sarr-key", "sarr-from-array", "bytearray"}
+    quick_keep |= {a[5] for a in arr_ops if a[5].startswith("carr-")}
     if tier == "quick":
         keep = lambda a: a[5] in quick_keep or (a[5] == "arr-one-bad" and a[0].endswith(("_2", "_3")))
         must = [a for a in arr_ops if keep(a)]
@@ -370,6 +453,19 @@ def seq_items(v, L: Layouts) -> Optional[list]:
         return [V_int(b) for b in v[1]]
     if t == "str":
         return [("str", [c]) for c in v[1]]
+    if t == "carr":
+        ck, cw, n, raw = v[1], v[2], v[3], v[4]
+        out = []
+        for i in range(n):
+            b = bytes(raw[i * cw:(i + 1) * cw])
+            if ck <= 1:
+                out.append(V_int(int.from_bytes(b, "little", signed=(ck == 0))))
+            elif ck == 2:
+                import struct as _st
+                out.append(V_float(float(_st.unpack("<f" if cw == 4 else "<d", b)[0])))
+            else:
+                out.append(("bytes", list(b)))
+        return out
     return None
 
 
